@@ -32,6 +32,19 @@ def _task_factory(loop, coro, **kw):
     return task
 
 
+class _SeqTimerHandle(events.TimerHandle):
+    """asyncio orders timers by their deadline only, and heapq is not stable: which of two timers with the same deadline
+    runs first would depend on the shape of the heap, i.e. on unrelated timers. Here equal deadlines run in the order in
+    which they were scheduled (what a real loop does for deadlines that differ by less than its clock resolution)."""
+
+    __slots__ = ("_seq",)
+
+    def __lt__(self, other):
+        if self._when == other._when:
+            return self._seq < getattr(other, "_seq", 0)
+        return self._when < other._when
+
+
 class _Selector:
     def __init__(self, loop):
         self._loop = loop
@@ -89,6 +102,7 @@ class SimLoop(asyncio.BaseEventLoop):
         self.on_postpone = None
         self._postpone_seq = 0
         self.net = None  # SimNet: owner of the socket buffers that select() looks at
+        self._timer_seq = 0
 
     def is_running(self):
         return getattr(self, "force_running", False) or super().is_running()
@@ -96,6 +110,17 @@ class SimLoop(asyncio.BaseEventLoop):
     # --- clock -----------------------------------------------------------
     def time(self):
         return self._now
+
+    def call_at(self, when, callback, *args, context=None):
+        if when is None:
+            raise TypeError("when cannot be None")
+        self._check_closed()
+        timer = _SeqTimerHandle(when, callback, args, self, context)
+        self._timer_seq += 1
+        timer._seq = self._timer_seq
+        heapq.heappush(self._scheduled, timer)
+        timer._scheduled = True
+        return timer
 
     def _advance(self, timeout):
         if timeout is None:
